@@ -173,6 +173,14 @@ class World:
                 "reparsed": rep, "encoding": sheet.encoding}
 
     def make(self, r, how):
+        if getattr(self, "nsuse", False) and r["k"] == "style" and "p" in self.sheet.namespaces:
+            # variant: style rules USE the namespace bound to prefix p whenever there is one - deleting or re-binding that
+            # declaration afterwards is then refused, and a refusal must leave everything as it was
+            if how == "text":
+                return "p|a, a { left: 0 }"
+            o = css.CSSStyleRule(selectorText=("p|a, a", dict(self.sheet.namespaces.items())), style="left: 0")
+            self.remember(o)
+            return o
         if how == "text":
             return text_of(r)
         o = object_of(r)
@@ -252,13 +260,19 @@ def run_trace(item):
     init()
     cssutils.ser.prefs.keepEmptyRules = True
     w = World()
+    w.nsuse = bool(item.get("nsuse"))
     tr = {"id": item["id"], "init": w.project(), "steps": []}
     actions = list(item["actions"])
     if item.get("reparse") and actions:
         # variant: before the last action the sheet is assigned its own content again, so that every rule object is one that
         # was parsed while attached (the abstract state is the same; where an object comes from must not matter)
         actions.insert(len(actions) - 1, {"op": "settext", "rules": "#current"})
-    for a in actions:
+    for n, a in enumerate(actions):
+        if w.nsuse and n == len(actions) - 1 and "p" in w.sheet.namespaces:
+            # whatever order the rules were created in: before the last action every style rule is made to use prefix p
+            for r in list(w.sheet.cssRules) + [c for m in w.sheet.cssRules if m.type == m.MEDIA_RULE for c in m.cssRules]:
+                if r.type == r.STYLE_RULE and "|" not in r.selectorText:
+                    outcome(lambda r=r: setattr(r, "selectorText", "p|a, a"))
         if a.get("rules") == "#current":
             cur = [abstract_rule(r) for r in w.sheet.cssRules]
             out0, txt = outcome(lambda: w.sheet.cssText.decode("utf-8"))
